@@ -2,6 +2,7 @@ SPECIFICATION Spec
 CONSTANTS
   Users = {"carol", "dave", "root"}
   Configured = {"root"}
+  AutoAdmins = {"carol"}
   Period = 5
   MaxT = 23
   Steps = {4, 5, 6}
